@@ -151,27 +151,33 @@ def replay_graphcall(o):
     cfg.use_graph_primitive, cfg.use_graph_division_primitive = o["cfg"]["prim"], o["cfg"]["divprim"]
     kw = {} if o["explicit"] == "none" else {"use_graph_primitive": o["explicit"] == "true"}
     h = o["helper"]
+    # which encoding is used must not depend on the size of the object: every third call is made on a large one
+    # (a path of 300 vertices, a 12x12 frame whose line graph has 312 vertices, a 17x17 board)
+    big = len(json.dumps(o, sort_keys=True)) % 3 == 0
+    n = 300 if big else 3
+    fs = 12 if big else 1
+    bs = 17 if big else 2
     try:
         s = Solver()
-        g = cg.Graph(3)
-        g.add_edge(0, 1)
-        g.add_edge(1, 2)
+        g = cg.Graph(n)
+        for i in range(n - 1):
+            g.add_edge(i, i + 1)
         try:
             if h == "active_vertices_connected":
-                cg.active_vertices_connected(s, s.bool_array(3), g, acyclic=o["acyclic"], **kw)
+                cg.active_vertices_connected(s, s.bool_array(n), g, acyclic=o["acyclic"], **kw)
             elif h == "division_connected":
-                cg.division_connected(s, s.int_array(3, 0, 1), 2, g)
+                cg.division_connected(s, s.int_array(n, 0, 1), 2, g)
             elif h == "active_edges_single_cycle":
-                cg.active_edges_single_cycle(s, BoolGridFrame(s, 1, 1), **kw)
+                cg.active_edges_single_cycle(s, BoolGridFrame(s, fs, fs), **kw)
             elif h == "active_edges_single_path":
-                cg.active_edges_single_path(s, s.bool_array(2), g, **kw)
+                cg.active_edges_single_path(s, s.bool_array(n - 1), g, **kw)
             elif h == "active_edges_connected_crossable":
-                cg.active_edges_connected_crossable(s, BoolGridFrame(s, 1, 1), **kw)
+                cg.active_edges_connected_crossable(s, BoolGridFrame(s, fs, fs), **kw)
             elif h == "not_adjacent_and_not_segmenting":
-                cg.active_vertices_not_adjacent_and_not_segmenting(s, s.bool_array(3), g)
+                cg.active_vertices_not_adjacent_and_not_segmenting(s, s.bool_array(n), g)
             elif h == "variable_groups_with_borders":
                 cg.division_connected_variable_groups_with_borders(
-                    s, group_size=s.int_array((2, 2), 1, 4), is_border=BoolInnerGridFrame(s, 2, 2), **kw)
+                    s, group_size=s.int_array((bs, bs), 1, 4), is_border=BoolInnerGridFrame(s, bs, bs), **kw)
             ops = {c["op"] for c in program(s)["cons"]}
             got = bool(ops & {"GRAPH_ACTIVE_VERTICES_CONNECTED", "GRAPH_DIVISION"})
         except Exception as e:  # noqa
